@@ -1,16 +1,35 @@
 """C01: decrypt(encrypt(P)) == P for every length, mode, hash, key, seed and thread count."""
 from props.filegen import *
 
-THEOREMS = ["C01_roundtrip"]
+THEOREMS = ["C01_roundtrip", "C01_roundtrip_under_every_schedule"]
 
 
-def run(ck, module="Properties_C01", theorems=THEOREMS, finish=True):
+def run(ck, module=("Properties_C01", "Properties_C01b"), theorems=THEOREMS, finish=True):
     ck.prove(module, theorems)
     exe = small_driver(ck)
     env = small_env(ck)
     mdrv = ck.model_driver()
     big = ck.tier == "thorough"
     cases = enc_cases(ck, 0, exhaustive_lengths=True) if big else enc_cases(ck, 150)
+    # directed family: ciphertext whose byte right after a chunk boundary is 0xFF / 0x00 / 0x1A / 0x0A / 0x0D
+    # (values that end-of-file or text-mode handling could confuse); found by search over random 2..3-chunk files
+    r = ck.rng
+    pool = [EncCase(n, cm, 0, T, rnd_key(r), rnd_seed(r), rnd_bytes(r, n), "boundary-byte-search")
+            for (n, cm, T) in [(r.choice([2 * CH - 3, 2 * CH + 5, 3 * CH - 1, 3 * CH + 20]), r.randrange(5), r.choice([1, 2, 3])) for _ in range(4000 if big else 1500)]]
+    pimpl = wv.run_lines([exe], ["p%d %s" % (i, c.line()) for i, c in enumerate(pool)], env=env)
+    want = {0xFF: 4, 0x00: 2, 0x1A: 1, 0x0A: 1, 0x0D: 1}
+    for i, c in enumerate(pool):
+        head, _ = split_impl(pimpl.get("p%d" % i, ""))
+        if head.startswith("OK "):
+            f = bytes.fromhex(head.split()[1])
+            body = f[48 + 20 * c.T:]
+            for b in range(CH, len(body), CH):
+                v = body[b]
+                if want.get(v, 0) > 0:
+                    want[v] -= 1
+                    c.cls = "chunk-starts-with-0x%02x" % v
+                    cases.append(c)
+                    break
     lines = ["e%d %s" % (i, c.line()) for i, c in enumerate(cases)]
     impl = wv.run_lines([exe], lines, env=env)
     model = wv.run_lines([mdrv], lines, env=env)
